@@ -129,7 +129,7 @@ package flate
 
 //@ func (*decompressor).step
 //@   requires rdOK(f) && f.writePos == f.readPos && f.err == nil
-//@   modifies f.state, f.writePos, f.readPos, f.historyBuffer, f.peekSize, f.eof, f.needInput, *f.rBuf, extReads, peekErr, asmErrno, asmCalls
+//@   modifies f.state, f.writePos, f.readPos, f.historyBuffer, f.peekSize, f.eof, f.needInput, *f.rBuf, extReads, srcConsumed, peekErr, asmErrno, asmCalls
 //@   ensures[C03 C04 inv] rdBasic(f) && f.readPos <= f.writePos && (err == nil ==> inflOK(&f.state) && inputOK(f))
 //@   assert call rOffset 1 [C11 need-iff-starved] f.needInput == (err == errEndInput)
 //@   ensures[C11 no-demand] !old(f.needInput) && old(f.state.input) == nil && int(old(f.state.bitsLen)/8) <= old(f.rBuf.buffered) ==> extReads == old(extReads)
@@ -141,7 +141,7 @@ package flate
 
 //@ func (*decompressor).Read
 //@   requires rdOK(f)
-//@   modifies b[*], f.err, f.state, f.writePos, f.readPos, f.historyBuffer, f.peekSize, f.eof, f.needInput, *f.rBuf, extReads, peekErr, asmErrno, asmCalls
+//@   modifies b[*], f.err, f.state, f.writePos, f.readPos, f.historyBuffer, f.peekSize, f.eof, f.needInput, *f.rBuf, extReads, srcConsumed, peekErr, asmErrno, asmCalls
 //@   ensures[C03 C04 inv] rdOK(f)
 //@   ensures[C04 deliver] 0 <= n && n <= len(b)
 //@   ensures[C04 deliver-pending] old(f.writePos) > old(f.readPos) ==> n == (len(b) < old(f.writePos - f.readPos) ? len(b) : old(f.writePos - f.readPos)) && f.readPos == old(f.readPos) + n && same(f.writePos) && same(f.historyBuffer) && extReads == old(extReads)
@@ -207,6 +207,10 @@ package flate
 //@   loop 3 invariant -1 <= rangeindex && rangeindex < size && 0 <= size && size <= 8 && size <= len(input) && (size > 0 ==> 0 <= atentry(bitsLen)) && 8*size <= 64 - int(atentry(bitsLen)) && bitsLen == atentry(bitsLen) + int32(8*(rangeindex+1))
 //@   loop 4 invariant 0 <= j && j <= i && 3 <= i && i <= 6 && 0 <= curr && 0 <= prev && prev < curr && curr <= end + 29 && curr + (i - j) <= end + 29 && err == nil && (count == ctx.litCount[:] || count == ctx.distCount[:]) && repCode.codeAndLength>>24 <= 15
 //@   loop 4 invariant lensOK(ctx)
+// symbol 16 repeats the length read last: prev is the entry just before curr (the jump from the literal/length
+// section to the distance section is taken lazily, by the next symbol that stores a length)
+//@   loop 1 invariant[C02 C03 prev-is-last] prev == curr - 1
+//@   loop 4 invariant[C02 C03 prev-is-last] j > 0 ==> prev == curr - 1
 //@   loop 5 invariant -1 <= rangeindex && rangeindex < size && 0 <= size && size <= 8 && size <= len(input) && (size > 0 ==> 0 <= atentry(bitsLen)) && 8*size <= 64 - int(atentry(bitsLen)) && bitsLen == atentry(bitsLen) + int32(8*(rangeindex+1))
 //@   loop 6 invariant -1 <= rangeindex && rangeindex < size && 0 <= size && size <= 8 && size <= len(input) && (size > 0 ==> 0 <= atentry(bitsLen)) && 8*size <= 64 - int(atentry(bitsLen)) && bitsLen == atentry(bitsLen) + int32(8*(rangeindex+1))
 
@@ -253,7 +257,7 @@ package flate
 //@   ensures[C03 over-subscribed-rejected] ret == 0 ==> kraft15(count) <= 32768
 //@   ensures[C03 nocall complete-or-degenerate] ret == 0 ==> kraft15(count) == 32768 || kraft15(count) == 0 || (kraft15(count) == 16384 && count[1] == 1)
 //@   ensures[C03 lengths-kept] forall k :: 0 <= k && k < len(table) ==> table[k].codeAndLength>>24 == old(table[k].codeAndLength>>24)
-//@   loop 1 invariant 2 <= i && i <= 16 && nextCode[0] == 0 && nextCode[1] == 0 && (i > 2 ==> nextCode[2] == nc2(count)) && (i > 3 ==> nextCode[3] == nc3(count)) && (i > 4 ==> nextCode[4] == nc4(count)) && (i > 5 ==> nextCode[5] == nc5(count)) && (i > 6 ==> nextCode[6] == nc6(count)) && (i > 7 ==> nextCode[7] == nc7(count)) && (i > 8 ==> nextCode[8] == nc8(count)) && (i > 9 ==> nextCode[9] == nc9(count)) && (i > 10 ==> nextCode[10] == nc10(count)) && (i > 11 ==> nextCode[11] == nc11(count)) && (i > 12 ==> nextCode[12] == nc12(count)) && (i > 13 ==> nextCode[13] == nc13(count)) && (i > 14 ==> nextCode[14] == nc14(count)) && (i > 15 ==> nextCode[15] == nc15(count))
+//@   loop 1 invariant 2 <= i && i <= 16 && uint32(nextCode[0]) == 0 && uint32(nextCode[1]) == 0 && (i > 2 ==> uint32(nextCode[2]) == nc2(count)) && (i > 3 ==> uint32(nextCode[3]) == nc3(count)) && (i > 4 ==> uint32(nextCode[4]) == nc4(count)) && (i > 5 ==> uint32(nextCode[5]) == nc5(count)) && (i > 6 ==> uint32(nextCode[6]) == nc6(count)) && (i > 7 ==> uint32(nextCode[7]) == nc7(count)) && (i > 8 ==> uint32(nextCode[8]) == nc8(count)) && (i > 9 ==> uint32(nextCode[9]) == nc9(count)) && (i > 10 ==> uint32(nextCode[10]) == nc10(count)) && (i > 11 ==> uint32(nextCode[11]) == nc11(count)) && (i > 12 ==> uint32(nextCode[12]) == nc12(count)) && (i > 13 ==> uint32(nextCode[13]) == nc13(count)) && (i > 14 ==> uint32(nextCode[14]) == nc14(count)) && (i > 15 ==> uint32(nextCode[15]) == nc15(count))
 //@   loop 2 invariant 0 <= i && i <= len(table) && (forall k :: 0 <= k && k < len(table) ==> table[k].codeAndLength>>24 == old(table[k].codeAndLength>>24))
 
 //@ func (*smallHuffCodeTable).genForDists
